@@ -551,6 +551,7 @@ def replay(obj) -> bool:
     from harness import engine_corr
     case = dict(r.get("case", {}))
     case.update(spec=r["spec"], kind="script", actions=r["actions"])
+    case.setdefault("seed", 0)
     out = engine_corr.run_batch([case], nproc=1)[0]
     vs = monitor(out)
     return not any(v.signature == sig for v in vs) and not (sig is None and vs)
